@@ -154,6 +154,27 @@ func (p *Path) formatValue(verb byte, a Value) Value {
 	case bool:
 		return strconv.FormatBool(v)
 	case *smt.Term:
+		// a scalar that depends on a few input bytes only: fork over its values
+		if v.Sort.K == smt.KBV && v.Sort.W <= 64 {
+			if vals := p.enumValues(v); vals != nil && len(vals) > 0 {
+				conds := make([]*smt.Term, len(vals))
+				for k, u := range vals {
+					conds[k] = p.C.Eq(v, p.C.BV(u, v.Sort.W))
+				}
+				u := vals[p.chooseVerified(conds)]
+				if verb == 'c' {
+					return string(rune(u))
+				}
+				if verb == 'q' {
+					return strconv.QuoteRune(rune(u))
+				}
+				// signedness is not known here: widths below 64 are printed unsigned
+				if v.Sort.W == 64 {
+					return strconv.FormatInt(int64(u), 10)
+				}
+				return strconv.FormatUint(u, 10)
+			}
+		}
 		p.note("formatting of a symbolic scalar yields a placeholder")
 		return "⟨sym⟩"
 	case *Native:
@@ -659,6 +680,62 @@ func init() {
 		return nil, false
 	}
 
+	// internal/bytealg: byte-loop models (the real ones are assembly)
+	indexByte := func(p *Path, bs []Value, c Value) Value {
+		for i, b := range bs {
+			eq := p.equals(types.Typ[types.Uint8], b, c)
+			if p.branch(eq) {
+				return int64(i)
+			}
+		}
+		return int64(-1)
+	}
+	externals["internal/bytealg.IndexByteString"] = func(p *Path, _ *frame, _ *ssa.Function, a []Value) (Value, bool) {
+		if s, ok := a[0].(string); ok {
+			if c, ok := a[1].(uint64); ok {
+				return int64(strings.IndexByte(s, byte(c))), true
+			}
+		}
+		return indexByte(p, strBytes(a[0]), a[1]), true
+	}
+	externals["internal/bytealg.IndexByte"] = func(p *Path, _ *frame, _ *ssa.Function, a []Value) (Value, bool) {
+		return indexByte(p, a[0].(Slice).A, a[1]), true
+	}
+	externals["internal/bytealg.IndexString"] = func(p *Path, _ *frame, _ *ssa.Function, a []Value) (Value, bool) {
+		if s, ok := a[0].(string); ok {
+			if sub, ok := a[1].(string); ok {
+				return int64(strings.Index(s, sub)), true
+			}
+		}
+		hs, nd := strBytes(a[0]), strBytes(a[1])
+		for i := 0; i+len(nd) <= len(hs); i++ {
+			var acc Value = true
+			for j := range nd {
+				acc = p.and(acc, p.equals(types.Typ[types.Uint8], hs[i+j], nd[j]))
+			}
+			if p.branch(acc) {
+				return int64(i), true
+			}
+		}
+		return int64(-1), true
+	}
+	externals["internal/bytealg.CountString"] = func(p *Path, _ *frame, _ *ssa.Function, a []Value) (Value, bool) {
+		n := int64(0)
+		for _, b := range strBytes(a[0]) {
+			if p.branch(p.equals(types.Typ[types.Uint8], b, a[1])) {
+				n++
+			}
+		}
+		return n, true
+	}
+	externals["internal/bytealg.MakeNoZero"] = func(p *Path, _ *frame, _ *ssa.Function, a []Value) (Value, bool) {
+		n := int(a[0].(int64))
+		bs := make([]Value, n)
+		for i := range bs {
+			bs[i] = uint64(0)
+		}
+		return Slice{A: bs}, true
+	}
 	ident := func(p *Path, _ *frame, _ *ssa.Function, a []Value) (Value, bool) { return a[0], true }
 	externals["internal/stringslite.Clone"] = ident
 	externals["strings.Clone"] = ident
